@@ -311,6 +311,8 @@ def run_impl_case(c, timeout=20.0):
         raise ValueError(k)
     except CaseTimeout:
         return {"status": "TIMEOUT"}
+    except MemoryError:
+        return {"status": "CRASH", "err": "MemoryError", "site": "address-space limit of the harness process", "msg": ""}
     except RecursionError as e:
         # where the host stack ran out: inside expression evaluation (a long operator chain) or
         # in the stack of nested blocks/imports
